@@ -30,12 +30,25 @@ RULE = (
     "every result against the closed form; per case and per pixel-centre-grid entry point (Grid2D.uniform / from_mask, "
     "derive_grid.all_false, Grid1D.uniform / from_mask, the grid_2d_util / grid_1d_util generators) one request history "
     "request -> caller edits the answer in place -> identical request -> request with other origin / mask -> identical "
-    "request, every answer against the closed form and all buffers pairwise disjoint; (geo1) every 1D length x scale x "
-    "origin; (circ/ann/anti/ell/ellann) every shape x scale x requested-centre x mask-origin (x axis-ratio x angle), per "
+    "request, every answer against the closed form and all buffers pairwise disjoint; (form) the same shapes x scales x "
+    "origins with the coordinates handed to EVERY public conversion route, both directions, in every dtype / container form: "
+    "scaled -> pixels / pixel centres / flattened indexes (geometry_util slim and native-shaped routes on ndarrays, Geometry2D "
+    "routes on the Grid2D built around the same buffer, the three scalar routes) for in-pixel float points as float32, big-endian, "
+    "Fortran-ordered, non-contiguous, negative-stride, read-only ndarrays, Python lists, native-shaped values, numpy scalars, "
+    "and for EVERY whole-number scaled coordinate inside the extent (outside the boundary band) as int64/32/16/8, big-endian, "
+    "Fortran / strided integer ndarrays, Python ints, whole floats; pixels -> scaled (geometry_util and Geometry2D grid routes, "
+    "both scalar routes) for the whole-number pixel lattice 0..H x 0..W in every signed AND unsigned integer dtype that holds "
+    "it, big-endian / Fortran / strided integer ndarrays, lists of Python ints, whole floats, and for continuous in-pixel "
+    "coordinates in the float forms; followed by the inverse conversion (pixels -> scaled -> pixels = identity); the integer "
+    "Grid2D / ndarray the library itself returns from grid_pixel_centres_2d(_slim)_from fed back into grid_scaled_2d(_slim)_from "
+    "(= top-left corner of the pixel) and back; every value against the closed form applied to the exact float64 value of what "
+    "was handed in, every input bitwise unchanged, no result aliasing its input; (geo1) every 1D length x scale x "
+    "origin, the 1D scalar conversions additionally with the coordinate in every scalar type / container form; (circ/ann/anti/ell/ellann) every shape x scale x requested-centre x mask-origin (x axis-ratio x angle), per "
     "case one radius inside EVERY gap (>1e-6) between consecutive distinct pixel-centre radii plus below-first/above-last, "
     "so every distinct mask the constructor can return for that geometry is produced (pairs / triples for the annular "
     "constructors; bounded subsample where BOUNDS says so). non-trivial = (geo) shape is non-square or scales anisotropic "
-    "or origin components unequal, i.e. outside the test-suite's fixture class; (masks) the constructor returned at least "
+    "or origin components unequal, i.e. outside the test-suite's fixture class; (form) the scaled coordinates of the "
+    "whole-number pixel lattice are not all whole numbers (a result allocated in the caller's integer dtype is visibly wrong); (masks) the constructor returned at least "
     "one mask that is neither all-masked nor all-unmasked"
 )
 ASSUMPTIONS = [
@@ -47,17 +60,30 @@ ASSUMPTIONS = [
     "input purity / buffer independence are decided per call on float64 C-contiguous slim inputs (ndarray and Grid2D with "
     "an all-false or a patterned mask); process-global library state is only observed within one case (the runner forks a "
     "fresh child per chunk), therefore every request history lives inside one case",
+    "input forms: the conversions are elementwise, so one in-pixel offset menu {(0,0),(+-0.25,-+0.45),(+-0.45,+-0.25)} per "
+    "pixel (float forms) and the whole-number lattices (integer forms) stand for all values of each form; float32 coordinates "
+    "are compared with the closed form of the ROUNDED value that was actually handed in, to 8 float32-eps of the intermediate "
+    "magnitudes (the library may do its arithmetic in the caller's single precision), and index routes only for points whose "
+    "distance to a pixel boundary exceeds 1e-3 px and 4x that rounding bound; float16 is not enumerated (its rounding exceeds a "
+    "pixel for the menus used); unsigned integer dtypes are enumerated for pixel coordinates only (scaled coordinates are "
+    "signed quantities; the negation -y of an unsigned y wraps in numpy by definition); geometry_util array routes take "
+    "ndarrays (their documented argument type), Python lists reach them through Grid2D and through the scalar routes",
     "pixel scales / origins / centres / axis ratios / angles are finite menus (dyadic, non-dyadic, anisotropic, negative, "
     "unequal components, one seeded member each); the seed only instantiates the seeded menu members",
 ]
 BOUNDS = {
     "quick": "geo: shapes 1..6 x 1..6, 7 scale pairs, 6 origins, all pixels x 81 offsets (reused-grid sequences of 8 conversions: "
-    "all pixels x 12 offsets; request histories of 5 requests for 8 entry points); geo1: lengths 1..8 x 5 scales x 4 "
+    "all pixels x 12 offsets; request histories of 5 requests for 8 entry points); form: the same shapes x scales x origins, "
+    "all pixels x 5 in-pixel offsets in 6 float forms (+ list, 2 native-shaped), all whole-number scaled points in the extent "
+    "(evenly thinned to 48 when more) in 8 integer forms (+ list, native-shaped), pixel lattice 0..H x 0..W in 10 integer forms "
+    "incl. uint8/uint16 (+ list, native-shaped), 10 / 12 scalar argument forms per scalar route; geo1: lengths 1..8 x 5 scales x 4 "
     "origins; masks: shapes 2..7 x 2..7, 4 scale pairs, 5 centres, 3 mask origins; circular: all steps (lo/mid/hi per gap); "
     "annular: all ordered pairs of steps; anti-annular: all ordered triples over a 5-step subsample + isolated edge radii, "
     "mask origin rotating; elliptical: all steps for 3 axis ratios x 5 angles, mask origin rotating; elliptical-annular: 5 (q,phi) "
     "inner/outer combinations, product of 6-step subsamples + isolated edge radii, mask origin rotating",
-    "thorough": "geo: shapes 1..8 x 1..8, 9 scale pairs, 8 origins (sequences / histories as in quick); geo1: lengths 1..12; masks: shapes 2..8 x 2..8, 5 scale "
+    "thorough": "geo: shapes 1..8 x 1..8, 9 scale pairs, 8 origins (sequences / histories as in quick); form: the same shapes x scales x origins, 13 in-pixel "
+    "offsets, 10 float forms (longdouble, float32 in Fortran / strided / big-endian read-only layout), up to 400 whole-number scaled "
+    "points, 12-16 integer forms (uint32/uint64, read-only, negative-stride, big-endian int64, whole float32); geo1: lengths 1..12; masks: shapes 2..8 x 2..8, 5 scale "
     "pairs, 6 centres, 3 mask origins; circular/annular: all steps / all ordered pairs; anti-annular: ALL ordered triples "
     "of steps for shapes with <= 20 cells, a 10-step subsample above; elliptical: 4 axis ratios x 7 angles all steps; elliptical-annular: 7 combinations, product of "
     "12-step subsamples",
@@ -163,6 +189,11 @@ def cases(tier, seed):
         for s in scale_menu(seed, tier, "geo"):
             for o in origin_menu(seed, tier, "geo"):
                 yield ["geo", H, W, s, o]
+    # ---- the same geometries, the coordinates handed to every conversion route in every dtype / container form
+    for (H, W) in shapes:
+        for s in scale_menu(seed, tier, "geo"):
+            for o in origin_menu(seed, tier, "geo"):
+                yield ["form", H, W, s, o, "q" if quick else "t"]
     # ---- mask constructors
     n = 7 if quick else 8
     shapes = sorted(itertools.product(range(2, n + 1), repeat=2), key=lambda hw: (hw[0] * hw[1], hw[0]))
@@ -292,6 +323,8 @@ def run_case(case):
         run_geo1(aa, v, *case[1:])
     elif kind == "geo":
         run_geo(aa, v, *case[1:])
+    elif kind == "form":
+        run_form(aa, v, *case[1:])
     else:
         run_masks(aa, v, *case)
     return v.result()
@@ -568,6 +601,477 @@ def run_geo1(aa, v, L, s, o):
             qx = xc[k] + f * s
             pc = gu.pixel_coordinates_1d_from(scaled_coordinates_1d=(qx,), shape_slim=(L,), pixel_scales=(s,), origins=(o,))
             v.ok(int(pc[0]) == k and pc[0] == k, "pixel_coordinates_1d_from", lambda: "%s x=%r got %r want %d" % (tag, qx, pc, k))
+    _geo1_forms(gu, v, L, s, o, xc, tol, tag)
+
+
+# ---- the coordinates handed to the conversions in every dtype / container form ------------------------------------------
+#
+# The closed forms of the property speak about coordinate VALUES; how the caller happens to store them (integer dtype - as in
+# the library's own docstring examples and as returned by Geometry2D.grid_pixel_centres_2d_from -, float32, big-endian,
+# Fortran-ordered / non-contiguous / read-only buffers, Python lists) must not change any converted value. Expected values are
+# always the closed form applied to the exact float64 value of what was handed in.
+
+EPS32 = float(np.finfo(np.float32).eps)
+BAND = 1e-3  # whole-number / float32 query coordinates keep this distance (in pixels) from every pixel boundary
+
+
+def _strided(a):
+    """``a`` as a non-contiguous view: every other element (along every axis) of a larger buffer."""
+    big = np.zeros([2 * d for d in a.shape], dtype=a.dtype)
+    view = big[tuple(slice(None, None, 2) for _ in a.shape)]
+    view[...] = a
+    return view
+
+
+def _negstride(a):
+    return a[::-1].copy()[::-1]
+
+
+def _readonly(a):
+    b = a.copy()
+    b.flags.writeable = False
+    return b
+
+
+def float_forms(a, thorough):
+    """(label, finding class, ndarray): the float64 C-contiguous ``a`` in the other float dtypes / memory layouts."""
+    out = [
+        ("a float32 ndarray", "float32", a.astype(np.float32)),
+        ("a Fortran-ordered float64 ndarray", "layout", np.asfortranarray(a)),
+        ("a non-contiguous float64 view (every other element of a larger buffer)", "layout", _strided(a)),
+        ("a negative-stride float64 view", "layout", _negstride(a)),
+        ("a read-only float64 ndarray", "read-only", _readonly(a)),
+        ("a big-endian float64 ndarray", "byte-order", a.astype(">f8")),
+    ]
+    if thorough:
+        out += [
+            ("a longdouble ndarray", "longdouble", a.astype(np.longdouble)),
+            ("a Fortran-ordered float32 ndarray", "float32", np.asfortranarray(a.astype(np.float32))),
+            ("a non-contiguous float32 view", "float32", _strided(a.astype(np.float32))),
+            ("a read-only big-endian float32 ndarray", "float32", _readonly(a.astype(">f4"))),
+        ]
+    return out
+
+
+def int_forms(a, thorough, unsigned):
+    """(label, finding class, ndarray): the int64 array ``a`` of whole numbers in every integer dtype that represents it (unsigned
+    dtypes only where ``unsigned`` - pixel coordinates; scaled coordinates are signed quantities), other byte order / layouts,
+    and as floats holding the same whole numbers."""
+    names = ["int64", "int32", "int16", "int8"] + (["uint8", "uint16"] if unsigned else [])
+    if thorough and unsigned:
+        names += ["uint32", "uint64"]
+    out = []
+    for n in names:
+        if a.size == 0 or (int(a.min()) >= np.iinfo(n).min and int(a.max()) <= np.iinfo(n).max):
+            out.append(("an %s ndarray" % n, "uint-dtype" if n[0] == "u" else "int-dtype", a.astype(n)))
+    out += [
+        ("a big-endian int32 ndarray", "int-dtype", a.astype(">i4")),
+        ("a Fortran-ordered int64 ndarray", "int-dtype", np.asfortranarray(a)),
+        ("a non-contiguous int32 view (every other element of a larger buffer)", "int-dtype", _strided(a.astype(np.int32))),
+        ("a float64 ndarray holding the whole numbers", "whole-float", a.astype(np.float64)),
+    ]
+    if thorough:
+        out += [
+            ("a read-only int64 ndarray", "int-dtype", _readonly(a)),
+            ("a negative-stride int16 view", "int-dtype", _negstride(a.astype(np.int16))),
+            ("a float32 ndarray holding the whole numbers", "float32", a.astype(np.float32)),
+            ("a big-endian int64 ndarray", "int-dtype", a.astype(">i8")),
+        ]
+    return out
+
+
+def _is32(a):
+    return isinstance(a, np.ndarray) and a.dtype.kind == "f" and a.dtype.itemsize == 4
+
+
+def _factor(n):
+    """Carrier shape (n1, n2), n1*n2 == n, for a slim grid of n unrelated query points."""
+    for k in (2, 3, 5, 7):
+        if n % k == 0 and n > k:
+            return n // k, k
+    return n, 1
+
+
+def _rows(cmp, r, want, keep, flat=False):
+    g = np.asarray(_raw(r))
+    if flat and g.ndim == 3 and g.shape[0] * g.shape[1] == want.shape[0]:
+        g = g.reshape((-1,) + g.shape[2:])
+    if g.shape != want.shape:
+        return False, ":shape", "shape %s want %s" % (g.shape, want.shape)
+    ok, suffix, msg = cmp(g[keep], want[keep])
+    if not ok:
+        msg += " [indices count the %d of %d query points outside the boundary band]" % (int(keep.sum()), len(keep))
+    return ok, suffix, msg
+
+
+def _flat_yx(r, want, tol):
+    g = np.asarray(_raw(r), dtype=float)
+    if g.ndim == 3 and g.shape[0] * g.shape[1] == want.shape[0]:
+        g = g.reshape(-1, 2)
+    return _cmp_yx(g, want, tol)
+
+
+def _form_call(v, name, cls, label, tag, call, arg, cmp):
+    """One conversion of one input form: value against the closed form, input bitwise unchanged, result owns its buffer."""
+    fn = "%s:input-form:%s" % (name, cls)
+    where = "%s coordinates given as %s" % (tag, label)
+    pure = _Pure(arg) if not isinstance(arg, (list, tuple)) else None
+    try:
+        r = call(arg)
+    except Exception as e:  # noqa: BLE001
+        v.ok(False, fn + ":raised", "%s: raised %r" % (where, e))
+        return None
+    ok, suffix, msg = cmp(r)
+    v.ok(ok, fn + suffix, lambda: "%s: %s" % (where, msg))
+    if pure is not None:
+        v.ok(not np.shares_memory(_raw(r), pure.buf), fn + ":result-aliases-input", where)
+        pure.check(v, fn, where)
+    return r if ok else None
+
+
+def run_form(aa, v, H, W, s_in, o_in, depth):
+    gu = aa.util.geometry
+    thorough = depth == "t"
+    s = pair(s_in)
+    o = (float(o_in[0]), float(o_in[1]))
+    ps_arg = s if isinstance(s_in, (list, tuple)) else float(s_in)
+    tag = "shape=(%d,%d) scales=%r origin=%r" % (H, W, s_in, o)
+    mag = abs(o[0]) + abs(o[1]) + H * s[0] + W * s[1]
+    tol = 1e-12 * mag
+    tolp = 1e-12 * (H + W + 1 + abs(o[0] / s[0]) + abs(o[1] / s[1]))
+    tol32 = tol + 8 * EPS32 * mag  # float32 coordinates: the library may legitimately do its arithmetic in single precision
+    y_top = o[0] + H * s[0] / 2.0
+    y_bot = o[0] - H * s[0] / 2.0
+    x_left = o[1] - W * s[1] / 2.0
+    x_right = o[1] + W * s[1] / 2.0
+    geom = aa.Mask2D(mask=np.zeros((H, W), bool), pixel_scales=ps_arg, origin=o).geometry
+    ukw = dict(shape_native=(H, W), pixel_scales=s, origin=o)
+
+    def ref_P(A):  # scaled -> continuous pixel coordinates (offset from the top-left corner of the frame)
+        return np.stack([(y_top - A[..., 0]) / s[0], (A[..., 1] - x_left) / s[1]], axis=-1)
+
+    def ref_S(P):  # continuous pixel coordinates -> scaled
+        return np.stack([y_top - P[..., 0] * s[0], x_left + P[..., 1] * s[1]], axis=-1)
+
+    def px_err32(A64):  # bound (pixels) on the rounding of single-precision arithmetic -y/s + c + 0.5
+        return 8 * EPS32 * (np.abs(A64[..., 0] / s[0]) + np.abs(A64[..., 1] / s[1]) + abs(o[0] / s[0]) + abs(o[1] / s[1]) + H + W + 1.0)
+
+    def refs(A64, f32):
+        """Closed forms for the scaled coordinates A64 (N,2): continuous pixels, containing pixel, flattened index, the rows far
+        enough from every pixel boundary for the index to be decided, tolerance of the continuous pixel coordinates."""
+        Pr = ref_P(A64)
+        Cr = np.floor(Pr).astype(int)
+        fr = Pr - Cr
+        margin = np.minimum(fr, 1.0 - fr).min(axis=-1)
+        inside = (Pr[:, 0] > 0) & (Pr[:, 0] < H) & (Pr[:, 1] > 0) & (Pr[:, 1] < W)
+        e = px_err32(A64) if f32 else np.zeros(len(A64))
+        keep = inside & (margin > np.maximum(BAND, 4 * e))
+        return Pr, Cr, Cr[:, 0] * W + Cr[:, 1], keep, tolp + (float(e.max()) if len(e) else 0.0)
+
+    carriers = {}
+
+    def carrier(n):
+        if n not in carriers:
+            carriers[n] = aa.Mask2D.all_false(shape_native=_factor(n), pixel_scales=1.0)
+        return carriers[n]
+
+    def as_grid(a, cls, label):
+        """The Grid2D a caller builds around the coordinates ``a`` (None and a finding if that already fails)."""
+        try:
+            if isinstance(a, list):
+                n = len(a)
+                return aa.Grid2D.no_mask(values=a, shape_native=_factor(n), pixel_scales=1.0)
+            if a.ndim == 3:
+                return aa.Grid2D.no_mask(values=a, pixel_scales=1.0)
+            return aa.Grid2D(values=a, mask=carrier(a.shape[0]))
+        except Exception as e:  # noqa: BLE001
+            v.ok(False, "Grid2D-of-coordinates:input-form:%s:raised" % cls, "%s Grid2D of coordinates given as %s: raised %r" % (tag, label, e))
+            return None
+
+    # ------------------------------------------------------------------------------------------------ the point sets
+    yc, xc = ref_centres(H, W, s, o)
+    offs = [(0.0, 0.0), (0.25, -0.45), (-0.25, 0.45), (0.45, 0.25), (-0.45, -0.25)]
+    if thorough:
+        offs += [(0.45, 0.45), (-0.45, -0.45), (0.45, -0.45), (-0.45, 0.45), (0.0, 0.45), (0.45, 0.0), (0.0, -0.45), (-0.45, 0.0)]
+    fy = np.array([f[0] for f in offs])
+    fx = np.array([f[1] for f in offs])
+    Qf = np.stack([(yc[:, :, None] + fy[None, None, :] * s[0]).ravel(), (xc[:, :, None] + fx[None, None, :] * s[1]).ravel()], axis=-1)
+    Qf = np.ascontiguousarray(Qf)
+    # every whole-number scaled coordinate inside the extent that is not within BAND pixels of a pixel boundary
+    ys = np.arange(int(np.ceil(y_bot)), int(np.floor(y_top)) + 1)
+    xs = np.arange(int(np.ceil(x_left)), int(np.floor(x_right)) + 1)
+    Qi = np.array(list(itertools.product(ys.tolist(), xs.tolist())), dtype=np.int64).reshape(-1, 2)
+    if len(Qi):
+        Qi = Qi[refs(Qi.astype(float), False)[3]]
+    cap = 400 if thorough else 48
+    if len(Qi) > cap:
+        Qi = Qi[np.unique(np.round(np.linspace(0, len(Qi) - 1, cap)).astype(int))]
+    Qi = np.ascontiguousarray(Qi)
+    # pixel coordinates: the whole-number lattice 0..H x 0..W (pixel corners, frame edges included) and the continuous pixel
+    # coordinates of the float query points
+    Pi = np.array(list(itertools.product(range(H + 1), range(W + 1))), dtype=np.int64)
+    Pf = np.ascontiguousarray(ref_P(Qf))
+
+    Si = ref_S(Pi.astype(float))
+    v.nontrivial = bool(np.any(np.abs(Si - np.round(Si)) > 1e-9))
+    v.outcome = "form:%s:whole-number-scaled-points~%s" % (_oc(H, W), "0" if len(Qi) == 0 else ("1-9" if len(Qi) < 10 else "10+"))
+
+    # ------------------------------------------------------------------------------------------------ scaled -> pixels
+    def scaled_routes(what, base, forms, lists):
+        n = len(base)
+        if n == 0:
+            return
+        n1, n2 = _factor(n)
+        # util level, slim (N,2) ndarrays
+        for label, cls, a in forms(base):
+            Pr, Cr, Ir, keep, tp = refs(np.asarray(a, dtype=np.float64), _is32(a))
+            assert keep.any(), "harness: no query point outside the boundary band"
+            t = "%s %s" % (tag, what)
+            _form_call(v, "geometry_util.grid_pixels_2d_slim_from", cls, label, t,
+                       lambda x: gu.grid_pixels_2d_slim_from(grid_scaled_2d_slim=x, **ukw), a, lambda r: _cmp_yx(r, Pr, tp))
+            _form_call(v, "geometry_util.grid_pixel_centres_2d_slim_from", cls, label, t,
+                       lambda x: gu.grid_pixel_centres_2d_slim_from(grid_scaled_2d_slim=x, **ukw), a, lambda r: _rows(_cmp_int_yx, r, Cr, keep))
+            _form_call(v, "geometry_util.grid_pixel_indexes_2d_slim_from", cls, label, t,
+                       lambda x: gu.grid_pixel_indexes_2d_slim_from(grid_scaled_2d_slim=x, **ukw), a, lambda r: _rows(_cmp_int, r, Ir, keep))
+            # geometry level: the Grid2D a caller builds around the same buffer
+            g = as_grid(a, cls, label)
+            if g is not None:
+                _form_call(v, "grid_pixels_2d_from", cls, "a Grid2D of " + label, t,
+                           lambda x: geom.grid_pixels_2d_from(grid_scaled_2d=x).slim, g, lambda r: _cmp_yx(r, Pr, tp))
+                _form_call(v, "grid_pixel_centres_2d_from", cls, "a Grid2D of " + label, t,
+                           lambda x: geom.grid_pixel_centres_2d_from(grid_scaled_2d=x).slim, g, lambda r: _rows(_cmp_int_yx, r, Cr, keep))
+                _form_call(v, "grid_pixel_indexes_2d_from", cls, "a Grid2D of " + label, t,
+                           lambda x: geom.grid_pixel_indexes_2d_from(grid_scaled_2d=x).slim, g, lambda r: _rows(_cmp_int, r, Ir, keep))
+        # util level, native-shaped (n1,n2,2) ndarrays
+        for label, cls, a3 in forms(np.ascontiguousarray(base.reshape(n1, n2, 2))):
+            Pr, Cr, Ir, keep, tp = refs(np.asarray(a3, dtype=np.float64).reshape(-1, 2), _is32(a3))
+            _form_call(v, "geometry_util.grid_pixel_centres_2d_from", cls, label + " of native shape (%d,%d,2)" % (n1, n2), "%s %s" % (tag, what),
+                       lambda x: gu.grid_pixel_centres_2d_from(grid_scaled_2d=x, **ukw), a3, lambda r: _rows(_cmp_int_yx, r, Cr, keep, flat=True))
+        # geometry level: Grid2D built from Python lists / from native-shaped values
+        for label, cls, vals in lists(base, n1, n2):
+            Pr, Cr, Ir, keep, tp = refs(np.asarray(vals, dtype=np.float64).reshape(-1, 2), _is32(vals))
+            assert keep.any(), "harness: no query point outside the boundary band"
+            g = as_grid(vals, cls, label)
+            if g is None:
+                continue
+            t = "%s %s" % (tag, what)
+            _form_call(v, "grid_pixels_2d_from", cls, "a Grid2D built from " + label, t,
+                       lambda x: geom.grid_pixels_2d_from(grid_scaled_2d=x).slim, g, lambda r: _cmp_yx(r, Pr, tp))
+            _form_call(v, "grid_pixel_centres_2d_from", cls, "a Grid2D built from " + label, t,
+                       lambda x: geom.grid_pixel_centres_2d_from(grid_scaled_2d=x).slim, g, lambda r: _rows(_cmp_int_yx, r, Cr, keep))
+            _form_call(v, "grid_pixel_indexes_2d_from", cls, "a Grid2D built from " + label, t,
+                       lambda x: geom.grid_pixel_indexes_2d_from(grid_scaled_2d=x).slim, g, lambda r: _rows(_cmp_int, r, Ir, keep))
+
+    def list_forms(base, n1, n2):
+        whole = base.dtype.kind == "i"
+        out = [("a list of [y, x] lists of Python %s" % ("ints" if whole else "floats"), "python-list", base.tolist())]
+        out.append(("native-shaped (%d,%d,2) %s values" % (n1, n2, base.dtype), "native-shaped", np.ascontiguousarray(base.reshape(n1, n2, 2))))
+        if not whole:
+            out.append(("native-shaped (%d,%d,2) float32 values" % (n1, n2), "native-shaped", base.reshape(n1, n2, 2).astype(np.float32)))
+        return out
+
+    scaled_routes("(scaled query points inside the pixels)", Qf, lambda b: float_forms(b, thorough), list_forms)
+    scaled_routes("(whole-number scaled query points)", Qi, lambda b: int_forms(b, thorough, False), list_forms)
+
+    # ------------------------------------------------------------------------------------------------ pixels -> scaled
+    def pixel_routes(what, base, forms, lists):
+        n = len(base)
+        n1, n2 = _factor(n)
+        t = "%s %s" % (tag, what)
+
+        def both(label, cls, a, g, A64, f32):
+            Sr = ref_S(A64)
+            ts, tpx = (tol32, tolp + float(px_err32(Sr).max())) if f32 else (tol, tolp)
+            if a is not None:
+                _form_call(v, "geometry_util.grid_scaled_2d_slim_from", cls, label, t,
+                           lambda x: gu.grid_scaled_2d_slim_from(grid_pixels_2d_slim=x, **ukw), a, lambda r: _cmp_yx(r, Sr, ts))
+            if g is not None:
+                sg = []
+                ok = _form_call(v, "grid_scaled_2d_from", cls, "a Grid2D of " + label, t,
+                                lambda x: sg.append(geom.grid_scaled_2d_from(grid_pixels_2d=x)) or sg[-1].slim, g, lambda r: _cmp_yx(r, Sr, ts))
+                if ok is not None:
+                    # the continuous conversion and its inverse compose to the identity
+                    back = geom.grid_pixels_2d_from(grid_scaled_2d=sg[-1]).slim
+                    ok2, suffix, msg = _cmp_yx(back, A64, tpx)
+                    v.ok(ok2, "grid_pixels_2d_from(grid_scaled_2d_from):input-form:%s%s" % (cls, suffix),
+                         lambda: "%s coordinates given as a Grid2D of %s: pixels -> scaled -> pixels %s" % (t, label, msg))
+
+        for label, cls, a in forms(base):
+            both(label, cls, a, as_grid(a, cls, label), np.asarray(a, dtype=np.float64), _is32(a))
+        for label, cls, vals in lists(base, n1, n2):
+            f32 = _is32(vals)
+            A64 = np.asarray(vals, dtype=np.float64).reshape(-1, 2)
+            both(label, cls, None, as_grid(vals, cls, label), A64, f32)
+
+    pixel_routes("(whole-number pixel coordinates 0..H x 0..W)", Pi, lambda b: int_forms(b, thorough, True), list_forms)
+    pixel_routes("(continuous pixel coordinates inside the pixels)", Pf, lambda b: float_forms(b, thorough), list_forms)
+
+    # ---- the integer grids the library itself hands out, fed back into the inverse conversion: pixel (i,j) -> its top-left corner
+    t = "%s (pixel grid returned by the library fed back)" % tag
+    Pr, Cr, Ir, keep, tp = refs(Qf, False)
+    corners = ref_S(Cr.astype(float))
+    qg = aa.Grid2D(values=Qf.copy(), mask=carrier(len(Qf)))
+    pcg = geom.grid_pixel_centres_2d_from(grid_scaled_2d=qg)
+    if _cmp_int_yx(pcg.slim, Cr)[0]:  # (a wrong pixel grid is grid_pixel_centres_2d_from's own finding, reported by the geo cases)
+        sg = []
+        ok = _form_call(v, "grid_scaled_2d_from", "fed-back-pixel-centres", "the %s Grid2D returned by Geometry2D.grid_pixel_centres_2d_from" % _raw(pcg).dtype, t,
+                        lambda x: sg.append(geom.grid_scaled_2d_from(grid_pixels_2d=x)) or sg[-1].slim, pcg, lambda r: _cmp_yx(r, corners, tol))
+        if ok is not None:
+            back = geom.grid_pixels_2d_from(grid_scaled_2d=sg[-1]).slim
+            ok2, suffix, msg = _cmp_yx(back, Cr.astype(float), tolp)
+            v.ok(ok2, "grid_pixels_2d_from(grid_scaled_2d_from):input-form:fed-back-pixel-centres" + suffix,
+                 lambda: "%s: pixels -> scaled -> pixels %s" % (t, msg))
+    pcu = gu.grid_pixel_centres_2d_slim_from(grid_scaled_2d_slim=Qf.copy(), **ukw)
+    if _cmp_int_yx(pcu, Cr)[0]:
+        _form_call(v, "geometry_util.grid_scaled_2d_slim_from", "fed-back-pixel-centres",
+                   "the %s ndarray returned by geometry_util.grid_pixel_centres_2d_slim_from" % pcu.dtype, t,
+                   lambda x: gu.grid_scaled_2d_slim_from(grid_pixels_2d_slim=x, **ukw), pcu, lambda r: _cmp_yx(r, corners, tol))
+        pci = pcu.astype("int")
+        _form_call(v, "geometry_util.grid_scaled_2d_slim_from", "fed-back-pixel-centres",
+                   "the ndarray returned by geometry_util.grid_pixel_centres_2d_slim_from cast with .astype('int')", t,
+                   lambda x: gu.grid_scaled_2d_slim_from(grid_pixels_2d_slim=x, **ukw), pci, lambda r: _cmp_yx(r, corners, tol))
+
+    # ------------------------------------------------------------------------------------------------ scalar routes
+    C = np.stack([yc, xc], axis=-1)
+    skw = dict(shape_native=(H, W), pixel_scales=s, origins=o)
+    s_entries = (("scaled_coordinates_2d_from", lambda c: geom.scaled_coordinates_2d_from(pixel_coordinates_2d=c)),
+                 ("geometry_util.scaled_coordinates_2d_from", lambda c: gu.scaled_coordinates_2d_from(pixel_coordinates_2d=c, **skw)))
+    pix_forms = [
+        ("a list of Python ints", "python-list", lambda i, j: [i, j], False),
+        ("a tuple of Python floats", "whole-float", lambda i, j: (float(i), float(j)), False),
+        ("an int64 ndarray", "int-dtype", lambda i, j: np.array([i, j], dtype=np.int64), False),
+        ("an int32 ndarray", "int-dtype", lambda i, j: np.array([i, j], dtype=np.int32), False),
+        ("a uint8 ndarray", "uint-dtype", lambda i, j: np.array([i, j], dtype=np.uint8), False),
+        ("a float64 ndarray", "whole-float", lambda i, j: np.array([i, j], dtype=np.float64), False),
+        ("a float32 ndarray", "float32", lambda i, j: np.array([i, j], dtype=np.float32), True),
+        ("a tuple of numpy int64 scalars", "int-dtype", lambda i, j: (np.int64(i), np.int64(j)), False),
+        ("a tuple of numpy int16 scalars", "int-dtype", lambda i, j: (np.int16(i), np.int16(j)), False),
+        ("a tuple of numpy uint8 scalars", "uint-dtype", lambda i, j: (np.uint8(i), np.uint8(j)), False),
+    ]
+    for name, fn in s_entries:
+        for label, cls, mk, f32 in pix_forms:
+            fid = "%s:input-form:%s" % (name, cls)
+            got = np.zeros((H, W, 2))
+            try:
+                for i in range(H):
+                    for j in range(W):
+                        r = fn(mk(i, j))
+                        got[i, j] = (float(r[0]), float(r[1]))
+            except Exception as e:  # noqa: BLE001
+                v.ok(False, fid + ":raised", "%s pixel (%d,%d) given as %s: raised %r" % (tag, i, j, label, e))
+                continue
+            _chk_yx(v, fid, got, C, tol32 if f32 else tol, "%s pixel coordinates given as %s" % (tag, label))
+
+    p_entries = (("pixel_coordinates_2d_from", lambda c: geom.pixel_coordinates_2d_from(scaled_coordinates_2d=c)),
+                 ("geometry_util.pixel_coordinates_2d_from", lambda c: gu.pixel_coordinates_2d_from(scaled_coordinates_2d=c, **skw)))
+    sc_float_forms = [
+        ("a list of Python floats", "python-list", lambda y, x: [float(y), float(x)], False),
+        ("a tuple of Python floats inside a float64 ndarray", "ndarray", lambda y, x: np.array([y, x], dtype=np.float64), False),
+        ("a float32 ndarray", "float32", lambda y, x: np.array([y, x], dtype=np.float32), True),
+        ("a tuple of numpy float64 scalars", "numpy-scalars", lambda y, x: (np.float64(y), np.float64(x)), False),
+        ("a tuple of numpy float32 scalars", "float32", lambda y, x: (np.float32(y), np.float32(x)), True),
+    ]
+    sc_int_forms = [
+        ("a tuple of Python ints", "int-dtype", lambda y, x: (int(y), int(x)), False),
+        ("a list of Python ints", "python-list", lambda y, x: [int(y), int(x)], False),
+        ("an int64 ndarray", "int-dtype", lambda y, x: np.array([y, x], dtype=np.int64), False),
+        ("an int32 ndarray", "int-dtype", lambda y, x: np.array([y, x], dtype=np.int32), False),
+        ("an int16 ndarray", "int-dtype", lambda y, x: np.array([y, x], dtype=np.int16), False),
+        ("a tuple of numpy int64 scalars", "int-dtype", lambda y, x: (np.int64(y), np.int64(x)), False),
+        ("a float32 ndarray holding the whole numbers", "float32", lambda y, x: np.array([y, x], dtype=np.float32), True),
+    ]
+    for what, base, fl in (("scaled query point", Qf, sc_float_forms), ("whole-number scaled query point", Qi, sc_int_forms)):
+        if len(base) == 0:
+            continue
+        for label, cls, mk, f32 in fl:
+            A64 = base.astype(np.float32).astype(np.float64) if f32 else base.astype(np.float64)
+            Pr, Cr, Ir, keep, tp = refs(A64, f32)
+            rows = np.flatnonzero(keep)
+            for name, fn in p_entries:
+                fid = "%s:input-form:%s" % (name, cls)
+                got = np.zeros((len(rows), 2), dtype=int)
+                exact = True
+                try:
+                    for n, k in enumerate(rows):
+                        k = int(k)
+                        r = fn(mk(base[k, 0], base[k, 1]))
+                        exact = exact and r[0] == int(r[0]) and r[1] == int(r[1])
+                        got[n] = (int(r[0]), int(r[1]))
+                except Exception as e:  # noqa: BLE001
+                    v.ok(False, fid + ":raised", "%s %s %r given as %s: raised %r" % (tag, what, base[k].tolist(), label, e))
+                    continue
+                v.ok(exact, fid + ":non-integer", "%s %s given as %s" % (tag, what, label))
+                ok, suffix, msg = _cmp_int_yx(got, Cr[rows])
+                v.ok(ok, fid + suffix, lambda: "%s %s given as %s: %s (query %r)" % (
+                    tag, what, label, msg, base[rows[int(np.flatnonzero((got != Cr[rows]).any(axis=1))[0])]].tolist()))
+            # scaled coordinate -> scaled coordinate of the centre of the pixel that contains it
+            fid = "scaled_coordinate_2d_to_scaled_at_pixel_centre_from:input-form:%s" % cls
+            gotc = np.zeros((len(rows), 2))
+            try:
+                for n, k in enumerate(rows):
+                    k = int(k)
+                    r = geom.scaled_coordinate_2d_to_scaled_at_pixel_centre_from(scaled_coordinate_2d=mk(base[k, 0], base[k, 1]))
+                    gotc[n] = (float(r[0]), float(r[1]))
+            except Exception as e:  # noqa: BLE001
+                v.ok(False, fid + ":raised", "%s %s %r given as %s: raised %r" % (tag, what, base[k].tolist(), label, e))
+                continue
+            _chk_yx(v, fid, gotc, C[Cr[rows, 0], Cr[rows, 1]], tol, "%s %s given as %s" % (tag, what, label))
+
+
+def _geo1_forms(gu, v, L, s, o, xc, tol, tag):
+    """1D scalar conversions with the coordinate handed over in every scalar type / container form."""
+    kw = dict(shape_slim=(L,), pixel_scales=(s,), origins=(o,))
+    tol32 = tol + 8 * EPS32 * (abs(o) + L * s)
+    pix_forms = [
+        ("a list of one Python int", "python-list", lambda k: [k], False),
+        ("a tuple of one Python float", "whole-float", lambda k: (float(k),), False),
+        ("an int64 ndarray", "int-dtype", lambda k: np.array([k], dtype=np.int64), False),
+        ("an int32 ndarray", "int-dtype", lambda k: np.array([k], dtype=np.int32), False),
+        ("a uint8 ndarray", "uint-dtype", lambda k: np.array([k], dtype=np.uint8), False),
+        ("a float32 ndarray", "float32", lambda k: np.array([k], dtype=np.float32), True),
+        ("a tuple of one numpy int64 scalar", "int-dtype", lambda k: (np.int64(k),), False),
+        ("a tuple of one numpy uint8 scalar", "uint-dtype", lambda k: (np.uint8(k),), False),
+    ]
+    for label, cls, mk, f32 in pix_forms:
+        fid = "scaled_coordinates_1d_from:input-form:%s" % cls
+        try:
+            got = np.array([float(gu.scaled_coordinates_1d_from(pixel_coordinates_1d=mk(k), **kw)[0]) for k in range(L)])
+        except Exception as e:  # noqa: BLE001
+            v.ok(False, fid + ":raised", "%s pixel given as %s: raised %r" % (tag, label, e))
+            continue
+        v.ok(bool(np.all(np.abs(got - xc) <= (tol32 if f32 else tol))), fid,
+             lambda: "%s pixel given as %s: got %s want %s" % (tag, label, got.tolist(), xc.tolist()))
+    # scaled -> pixel: float query points inside every pixel, and every whole-number coordinate inside the extent
+    x_left = o - L * s / 2.0
+    qf = (xc[:, None] + np.array([0.0, 0.25, -0.45, 0.45])[None, :] * s).ravel()
+    lo, hi = int(np.ceil(x_left)), int(np.floor(o + L * s / 2.0))
+    qi = np.arange(lo, hi + 1, dtype=np.int64)[:64]
+    sc_forms = [
+        (qf, "a list of one Python float", "python-list", lambda x: [float(x)], False),
+        (qf, "a float64 ndarray", "ndarray", lambda x: np.array([x], dtype=np.float64), False),
+        (qf, "a float32 ndarray", "float32", lambda x: np.array([x], dtype=np.float32), True),
+        (qf, "a tuple of one numpy float32 scalar", "float32", lambda x: (np.float32(x),), True),
+        (qi, "a tuple of one Python int", "int-dtype", lambda x: (int(x),), False),
+        (qi, "an int64 ndarray", "int-dtype", lambda x: np.array([x], dtype=np.int64), False),
+        (qi, "an int16 ndarray", "int-dtype", lambda x: np.array([x], dtype=np.int16), False),
+        (qi, "a tuple of one numpy int32 scalar", "int-dtype", lambda x: (np.int32(x),), False),
+    ]
+    for base, label, cls, mk, f32 in sc_forms:
+        fid = "pixel_coordinates_1d_from:input-form:%s" % cls
+        a64 = base.astype(np.float32).astype(np.float64) if f32 else base.astype(np.float64)
+        pr = (a64 - x_left) / s
+        kr = np.floor(pr).astype(int)
+        fr = pr - kr
+        e = 8 * EPS32 * (np.abs(a64 / s) + abs(o / s) + L + 1.0) if f32 else np.zeros(len(a64))
+        keep = (pr > 0) & (pr < L) & (np.minimum(fr, 1.0 - fr) > np.maximum(BAND, 4 * e))
+        for k in np.flatnonzero(keep):
+            k = int(k)
+            try:
+                pc = gu.pixel_coordinates_1d_from(scaled_coordinates_1d=mk(base[k]), **kw)
+            except Exception as e2:  # noqa: BLE001
+                v.ok(False, fid + ":raised", "%s x=%r given as %s: raised %r" % (tag, base[k].tolist(), label, e2))
+                break
+            v.ok(pc[0] == kr[k] and int(pc[0]) == kr[k], fid, lambda: "%s x=%r given as %s: got %r want %d" % (tag, base[k].tolist(), label, pc, kr[k]))
 
 
 def run_geo(aa, v, H, W, s_in, o_in):
